@@ -17,7 +17,7 @@ if REPO_SRC not in sys.path:
     sys.path.insert(0, REPO_SRC)
 
 from .choice import Chooser  # noqa: E402
-from .loop import SimCap, SimDeadlock, SimLoop  # noqa: E402
+from .loop import HarnessError, SimCap, SimDeadlock, SimLoop  # noqa: E402
 from .net import FakeSelectModule, FakeSocketModule, SimNet  # noqa: E402
 from .proc import FakeFcntl, FakeOs, FakeSubprocess, FakeThread, SimProcs  # noqa: E402
 
@@ -193,12 +193,12 @@ class World:
 
     # ------------------------------------------------------------------ history
 
-    def rec(self, kind: str, **fields) -> None:
+    def rec(self, _kind: str, **fields) -> None:
         self._seq += 1
-        ev = (self._seq, round(self.loop.mono, 6), kind, fields)
+        ev = (self._seq, round(self.loop.mono, 6), _kind, fields)
         self.history.append(ev)
         if self.verbose:
-            sys.stderr.write(f'{ev[1]:10.4f} {kind} {fields}\n')
+            sys.stderr.write(f'{ev[1]:10.4f} {_kind} {fields}\n')
 
     def digest(self) -> str:
         m = hashlib.sha256()
@@ -448,6 +448,9 @@ class World:
             self.ended = f'cap: {exc}'
         except SimDeadlock as exc:
             self.ended = f'deadlock: {exc}'
+        except HarnessError:
+            self._finish()
+            raise
         except BaseException as exc:  # the reactor itself crashed
             import traceback
 
